@@ -4,10 +4,16 @@ import common, fns, sweeps
 from common import canon
 
 PROP = 'C01'
-LEAN_MODULES = ['XyzProofs.Props.C01']
+LEAN_MODULES = ['XyzProofs.Props.C01', 'XyzProofs.Refine.Core']
 THEOREMS = ['Core.c01_calls_once', 'Core.c01_flat', 'Core.c01_slot', 'Core.c01_strategy_irrelevant', 'Core.c01_spelling',
-            'Core.c01_split_slot', 'Core.unflatten_eq', 'Core.nest_get', 'Core.runShuffled_eq']
-ANCHORS = []
+            'Core.c01_split_slot', 'Core.unflatten_eq', 'Core.nest_get', 'Core.runShuffled_eq',
+            # the hand-written model is the source as translated on this run (harness/anchors_core.py, pyloop2lean.py)
+            'CoreRefine.coreEnum_refines', 'CoreRefine.coreRunSeq_refines', 'CoreRefine.coreRunExec_refines',
+            'CoreRefine.coreRun_plain', 'CoreRefine.coreRun_shuffled', 'CoreRefine.coreRun_shuffled_empty',
+            'CoreRefine.coreRun_runLinear', 'CoreRefine.unflatten_refines', 'CoreRefine.coreProcess_flat',
+            'CoreRefine.coreProcess_grid', 'CoreRefine.coreGlue_holds', 'CoreRefine.translated_eq_core',
+            'CoreRefine.c01_slot_src']
+ANCHORS = ['coreEnum', 'coreRunSeq', 'coreRunExec', 'coreRun', 'unflatten', 'coreProcess', 'coreGlue']
 RULE = ("grids of 1-5 arguments x 1-4 values (int/float/str, unsorted order, dict / list-of-pairs / single-pair "
         "spelling) and grids of 27-120 combinations (powers, highly composite and prime counts) on the library's own "
         "process pool with 2 / 3 / cpu_count workers, 0-2 constants, result kinds scalar/str/bool/tuple/nested list, 12 execution strategies incl. real "
